@@ -1272,18 +1272,25 @@ class MultiUserChannelMatrix:  # pylint: disable=R0902
 
         output = np.dot(self.big_H, data)
 
-        # Add the noise, if self.noise_var is not None
+        # Add the noise, if self.noise_var is not None. Note that the sum is
+        # not performed in place: the noise is complex while `output` has
+        # the type of the channel and of the data (possibly real or
+        # integer).
+        awgn_noise = None
         if self.noise_var is not None:
             awgn_noise = (randn_c_RS(self._RS_noise, *output.shape) *
                           math.sqrt(self.noise_var))
-            output += awgn_noise
-            self._last_noise = awgn_noise
-        else:
-            self._last_noise = None
+            output = output + awgn_noise
 
         # Apply the post processing filter (if there is one set)
         if self.big_W is not None:
             output = np.dot(self.big_W.conjugate().T, output)
+
+        # Only now that nothing can fail anymore: remember the noise that
+        # was added (read-only, as everything else the object reports)
+        if awgn_noise is not None:
+            awgn_noise.setflags(write=False)
+        self._last_noise = awgn_noise
 
         return output
 
@@ -1353,29 +1360,33 @@ class MultiUserChannelMatrix:  # pylint: disable=R0902
         channel coefficients will be multiplied by the square root of
         elements in `pathloss_matrix`.
         """
-        # A matrix with the path loss from each transmitter to each
-        # receiver.
-        self._pathloss_matrix = pathloss_matrix
-
-        # Reset the _big_H_with_pathloss and _H_with_pathloss. They will be
-        # correctly set the first time the _get_H or _get_big_H methods are
-        # called.
-        self._big_H_with_pathloss = None
-        self._H_with_pathloss = None
-
-        if pathloss_matrix is None:
-            self._pathloss_big_matrix = None
-        else:
-            assert (self._pathloss_matrix is not None)
-            self._pathloss_big_matrix \
+        # Everything that can fail is computed before anything is stored,
+        # so that a rejected path loss leaves the object as it was. We keep
+        # our own copy of the matrix: the caller remains free to reuse (or
+        # modify) the array that was passed.
+        pathloss_big_matrix = None
+        if pathloss_matrix is not None:
+            pathloss_matrix = np.array(pathloss_matrix)
+            pathloss_big_matrix \
                 = MultiUserChannelMatrix._from_small_matrix_to_big_matrix(
                     pathloss_matrix, self._Nr, self._Nt, self._K)
 
             # Assures that _pathloss_matrix and _pathloss_big_matrix will stay
             # in sync by disallowing modification of individual elements in
             # both of them.
-            self._pathloss_matrix.setflags(write=False)
-            self._pathloss_big_matrix.setflags(write=False)
+            pathloss_matrix.setflags(write=False)
+            pathloss_big_matrix.setflags(write=False)
+
+        # A matrix with the path loss from each transmitter to each
+        # receiver.
+        self._pathloss_matrix = pathloss_matrix
+        self._pathloss_big_matrix = pathloss_big_matrix
+
+        # Reset the _big_H_with_pathloss and _H_with_pathloss. They will be
+        # correctly set the first time the _get_H or _get_big_H methods are
+        # called.
+        self._big_H_with_pathloss = None
+        self._H_with_pathloss = None
 
     # noinspection PyPep8
     def _calc_Q_impl(self, k: int, F_all_users: np.ndarray) -> np.ndarray:
@@ -2441,11 +2452,18 @@ class MultiUserChannelMatrixExtInt(  # pylint: disable=R0904
             = MultiUserChannelMatrixExtInt._prepare_input_parans(
                 Nr, Nt, K, NtE)
 
+        # The base class needs the number of external interference sources
+        # (through the K property). If it rejects the arguments the object
+        # must stay as it was.
+        previous = (self._extIntK, self._extIntNt)
         self._extIntK = extIntK
         self._extIntNt = extIntNt
-
-        MultiUserChannelMatrix.init_from_channel_matrix(
-            self, channel_matrix, full_Nr, full_Nt, full_K)
+        try:
+            MultiUserChannelMatrix.init_from_channel_matrix(
+                self, channel_matrix, full_Nr, full_Nt, full_K)
+        except Exception:
+            self._extIntK, self._extIntNt = previous
+            raise
 
     def randomize(  # type: ignore
             self, Nr: IntOrIntArrayUnion, Nt: IntOrIntArrayUnion, K: int,
@@ -2476,10 +2494,17 @@ class MultiUserChannelMatrixExtInt(  # pylint: disable=R0904
             = MultiUserChannelMatrixExtInt._prepare_input_parans(
                 Nr, Nt, K, NtE)
 
+        # The base class needs the number of external interference sources
+        # (through the K property). If it rejects the arguments the object
+        # must stay as it was.
+        previous = (self._extIntK, self._extIntNt)
         self._extIntK = extIntK
         self._extIntNt = extIntNt
-
-        MultiUserChannelMatrix.randomize(self, full_Nr, full_Nt, full_K)
+        try:
+            MultiUserChannelMatrix.randomize(self, full_Nr, full_Nt, full_K)
+        except Exception:
+            self._extIntK, self._extIntNt = previous
+            raise
 
     def set_pathloss(self,
                      pathloss_matrix: Optional[np.ndarray] = None,
@@ -2512,25 +2537,15 @@ class MultiUserChannelMatrixExtInt(  # pylint: disable=R0904
         ext_int_pathloss : np.ndarray
             The external interference path loss.
         """
-        # A matrix with the path loss from each transmitter to each
-        # receiver.
-        self._pathloss_matrix = pathloss_matrix
-
-        # Reset the _big_H_with_pathloss and _H_with_pathloss. They will be
-        # correctly set the first time the H or big_H properties are read
-        # (otherwise big_H would keep the previous path loss).
-        self._big_H_with_pathloss = None
-        self._H_with_pathloss = None
-
-        if pathloss_matrix is None:
-            self._pathloss_matrix = None
-            self._pathloss_big_matrix = None
-        else:
+        # Everything that can fail is computed before anything is stored,
+        # so that a rejected path loss leaves the object as it was.
+        pathloss_matrix_with_ext_int = None
+        pathloss_big_matrix = None
+        if pathloss_matrix is not None:
             pathloss_matrix_with_ext_int = np.hstack(
                 [pathloss_matrix, ext_int_pathloss])
-            self._pathloss_matrix = pathloss_matrix_with_ext_int
 
-            self._pathloss_big_matrix \
+            pathloss_big_matrix \
                 = MultiUserChannelMatrix._from_small_matrix_to_big_matrix(
                     pathloss_matrix_with_ext_int, self._Nr, self._Nt,
                     self.K, self._K)
@@ -2538,8 +2553,19 @@ class MultiUserChannelMatrixExtInt(  # pylint: disable=R0904
             # Assures that _pathloss_matrix and _pathloss_big_matrix
             # will stay in sync by disallowing modification of
             # individual elements in both of them.
-            self._pathloss_matrix.setflags(write=False)
-            self._pathloss_big_matrix.setflags(write=False)
+            pathloss_matrix_with_ext_int.setflags(write=False)
+            pathloss_big_matrix.setflags(write=False)
+
+        # A matrix with the path loss from each transmitter to each
+        # receiver (including the external interference sources).
+        self._pathloss_matrix = pathloss_matrix_with_ext_int
+        self._pathloss_big_matrix = pathloss_big_matrix
+
+        # Reset the _big_H_with_pathloss and _H_with_pathloss. They will be
+        # correctly set the first time the H or big_H properties are read
+        # (otherwise big_H would keep the previous path loss).
+        self._big_H_with_pathloss = None
+        self._H_with_pathloss = None
 
     def calc_cov_matrix_extint_without_noise(self,
                                              pe: float = 1.0) -> np.ndarray:
